@@ -308,18 +308,16 @@ theorem nuLoop_spec (hS : S.Pairwise (· < ·)) :
       Sorted (done ++ rest) → bk.length = S.length →
       (∀ j, j < S.length → bk[j]? = some (done.filter (fun e => nuMemb S pre post as ae j e.1))) →
       (∀ y ∈ rest, ∀ j, j < ss → nuMemb S pre post as ae j y.1 = false) →
-      (∀ y ∈ rest, inWindow as ae pre post y.1 = true → (∃ s0, S[0]? = some s0 ∧ s0 - pre ≤ y.1) →
-        ∃ i, nuMemb S pre post as ae i y.1 = true) →
       ∃ bk', nuLoop S as ae pre post rest bk ss = some bk' ∧ bk'.length = S.length ∧
         ∀ j, j < S.length →
           bk'[j]? = some ((done ++ rest).filter (fun e => nuMemb S pre post as ae j e.1)) := by
   intro rest
   induction rest with
   | nil =>
-    intro done bk ss _ hlen hbk _ _
+    intro done bk ss _ hlen hbk _
     exact ⟨bk, rfl, hlen, by simpa using hbk⟩
   | cons x rest ih =>
-    intro done bk ss hsorted hlen hbk hdead hcover
+    intro done bk ss hsorted hlen hbk hdead
     have hsorted' : Sorted ((done ++ [x]) ++ rest) := by simpa [List.append_assoc] using hsorted
     have hxrest : Sorted (x :: rest) := (List.pairwise_append.1 hsorted).2.1
     have happ : done ++ x :: rest = (done ++ [x]) ++ rest := by simp [List.append_assoc]
@@ -332,7 +330,6 @@ theorem nuLoop_spec (hS : S.Pairwise (· < ·)) :
       rw [happ]
       apply ih (done ++ [x]) bk ss hsorted' hlen _
         (fun y hy => hdead y (List.mem_cons_of_mem _ hy))
-        (fun y hy => hcover y (List.mem_cons_of_mem _ hy))
       intro j hj
       rw [filter_snoc_nuMemb, hno j]
       simpa using hbk j hj
@@ -411,20 +408,15 @@ theorem nuLoop_spec (hS : S.Pairwise (· < ·)) :
                 · exact h
             have hnd := nuInner_nodup pre post as ae x.1 (S.drop ss) ss
             generalize nuInner as ae pre post x.1 ss (S.drop ss) = inds at hinds hnd
-            -- x is covered, so min() has something to look at
-            have hs0 : ∃ s0, S[0]? = some s0 ∧ s0 - pre ≤ x.1 := by
-              have h0 : 0 < S.length := by
-                rcases Nat.lt_or_ge ss S.length with h' | h'
-                · omega
-                · rw [List.getElem?_eq_none h'] at hss; cases hss
-              refine ⟨S[0], List.getElem?_eq_getElem h0, ?_⟩
-              have := sorted_getElem?_le S hS (Nat.zero_le ss) (List.getElem?_eq_getElem h0) hss
-              omega
-            obtain ⟨i0, hi0⟩ := hcover x (List.mem_cons_self ..) hwin hs0
-            have hne : inds ≠ [] := by
-              intro e
-              have := (hinds i0).2 hi0
-              rw [e] at this; cases this
+            -- an element that falls in no partition does not move the search (`if inds:`)
+            by_cases hne : inds = []
+            · subst hne
+              simp only [minOf, List.foldl_nil]
+              apply skip
+              intro j
+              cases hh : nuMemb S pre post as ae j x.1 with
+              | false => rfl
+              | true => have := (hinds j).2 hh; cases this
             obtain ⟨m, hm⟩ := minOf_isSome hne
             simp only [hm]
             have hmmem : nuMemb S pre post as ae m x.1 = true := (hinds m).1 (minOf_mem hm)
@@ -450,7 +442,6 @@ theorem nuLoop_spec (hS : S.Pairwise (· < ·)) :
                     omega
                 exact dead_of_lt_member S pre post as ae hS hj hmmem hjx y.1
                   (Int.le_of_lt (hxrest.head_lt y hy))
-            · exact fun y hy => hcover y (List.mem_cons_of_mem _ hy)
 
 end nu
 section assemble
@@ -471,18 +462,14 @@ theorem zipIdx_map_range {α : Type} (n : Nat) (G : Nat → α) :
   · intro i h1 h2
     simp [List.getElem_zipIdx]
 
-/-- the non-uniform splitter computes the specification, provided every element that reaches the
-    first boundary's pre-halo inside the window belongs to some partition (otherwise the code
-    raises `ValueError`) -/
+/-- the non-uniform splitter computes the specification (ascending boundaries, ascending fiber) -/
 theorem splitNonUniformIter_eq (hS : S.Pairwise (· < ·)) (rel : Bool) (elems : Fib Int π)
-    (hsorted : Sorted elems)
-    (hcover : ∀ y ∈ elems, inWindow as ae pre post y.1 = true →
-      (∃ s0, S[0]? = some s0 ∧ s0 - pre ≤ y.1) → ∃ i, nuMemb S pre post as ae i y.1 = true) :
+    (hsorted : Sorted elems) :
     splitNonUniformIter S pre post as ae rel elems = some (nuSpec S pre post as ae rel elems) := by
   obtain ⟨bk', h1, h2, h3⟩ := nuLoop_spec S pre post as ae hS elems [] (List.replicate S.length []) 0
     (by simpa using hsorted) (by simp)
     (fun j hj => by simp [List.getElem?_replicate, hj])
-    (fun y _ j hj => by omega) hcover
+    (fun y _ j hj => by omega)
   simp only [List.nil_append] at h3
   have h4 := eq_map_range_of_getElem? bk' S.length
     (fun j => elems.filter (fun e => nuMemb S pre post as ae j e.1)) h2 h3
